@@ -15,6 +15,13 @@ Parameters (evaluated for real by the harness, shipped in the case line, see `Li
 subject; here every route is a static path and `treeLookup` follows `node.getRoute` on static-only
 trees. Core Lean only.
 -/
+open Lean in
+/-- `vb!"abc"` is the byte string `['a', 'b', 'c']` as a list literal (a `String.toList` of a literal does
+    not reduce in the kernel in reasonable time, so `decide` witnesses need the list form) -/
+macro:max "vb!" s:str : term => do
+  let elems ← s.getString.toList.mapM fun c => `($(Syntax.mkCharLit c))
+  `(([$(elems.toArray),*] : List Char))
+
 namespace Rivaas.Version
 
 /-! ### Go `strings` on `List Char` -/
@@ -56,7 +63,7 @@ def splitByte (sep : Char) : Bytes → List Bytes
 
 def sliceFromTo (s : Bytes) (a b : Nat) : Bytes := (s.drop a).take (b - a)
 
-def versionPlaceholder : Bytes := "{version}".toList
+def versionPlaceholder : Bytes := vb!"{version}"
 
 /-! ### configuration -/
 
@@ -303,8 +310,6 @@ structure Hdrs where
 def getLifecycle (lcs : List (Bytes × LC)) (v : Bytes) : Option LC :=
   (lcs.reverse.find? (fun p => p.1 == v)).map (·.2)
 
-def s (x : String) : Bytes := x.toList
-
 /-- `Engine.SetLifecycleHeaders` (after the K13c repair): headers set, and "is past sunset" -/
 def setLifecycleHeaders (cfg : Cfg) (version : Bytes) : Hdrs × Bool :=
   let h : Hdrs := { xapi := if cfg.sendVersionHeader && version != [] then some version else Option.none }
@@ -317,24 +322,24 @@ def setLifecycleHeaders (cfg : Cfg) (version : Bytes) : Hdrs × Bool :=
     if past then
       ({ h with
           sunset := lc.sunset.map (·.2.1),
-          link := if lc.migration != [] then some (s "<" ++ lc.migration ++ s ">; rel=\"sunset\"") else Option.none },
+          link := if lc.migration != [] then some (vb!"<" ++ lc.migration ++ vb!">; rel=\"sunset\"") else Option.none },
        true)
     else if !lc.deprecated then (h, false)
     else
       let link : Option Bytes :=
         if lc.migration != [] then
-          some (s "<" ++ lc.migration ++ s ">; rel=\"deprecation\"" ++
-            (if lc.sunset.isSome then s ", <" ++ lc.migration ++ s ">; rel=\"sunset\"" else []))
+          some (vb!"<" ++ lc.migration ++ vb!">; rel=\"deprecation\"" ++
+            (if lc.sunset.isSome then vb!", <" ++ lc.migration ++ vb!">; rel=\"sunset\"" else []))
         else Option.none
       let warning : Option Bytes :=
         if cfg.sendWarning299 then
-          some (s "299 - \"API " ++ version ++ s " is deprecated" ++
+          some (vb!"299 - \"API " ++ version ++ vb!" is deprecated" ++
             (match lc.sunset with
-             | some (_, _, rfc) => s " and will be removed on " ++ rfc
+             | some (_, _, rfc) => vb!" and will be removed on " ++ rfc
              | Option.none => []) ++
-            s ". Please upgrade to a supported version.\"")
+            vb!". Please upgrade to a supported version.\"")
         else Option.none
-      ({ h with deprecation := some (s "true"), sunset := lc.sunset.map (·.2.1), link := link, warning := warning },
+      ({ h with deprecation := some (vb!"true"), sunset := lc.sunset.map (·.2.1), link := link, warning := warning },
        false)
 
 /-! ### trees -/
@@ -380,7 +385,7 @@ def processVersioning (cfg : Cfg) (routes : List Route) (req : Req) : VC :=
     { version := ver, routingPath := routingPath, tree := selectRoutingTree cfg routes req.method ver }
 
 def standardMethods : List Bytes :=
-  [s "GET", s "POST", s "PUT", s "PATCH", s "DELETE", s "HEAD", s "OPTIONS"]
+  [vb!"GET", vb!"POST", vb!"PUT", vb!"PATCH", vb!"DELETE", vb!"HEAD", vb!"OPTIONS"]
 
 /-- `Router.handleNotFound`: 405 when the raw path exists in the main tree of another method -/
 def notFound (routes : List Route) (req : Req) : Obs :=
